@@ -59,8 +59,10 @@ Eval(stk, i, sg) ==
                   r == BO(p.cfg)!Record(in.sg.pol[p.id], ~failed, in.sg.now)
               IN Out(in.o, in.ok /\ ~failed, [in.sg EXCEPT !.pol[p.id] = r.b])
     [] p.k = "rl" ->
-         IF sg.pol[p.id] = 0 THEN Out(Pair("R0", Leaf("RateExceeded")), FALSE, sg)
-         ELSE Eval(stk, i + 1, [sg EXCEPT !.pol[p.id] = @ - 1])
+         \* m permits per period; a refusal costs nothing
+         LET st == RlRoll(p, sg.pol[p.id], sg.now) IN
+         IF st.left = 0 THEN Out(Pair("R0", Leaf("RateExceeded")), FALSE, [sg EXCEPT !.pol[p.id] = st])
+         ELSE Eval(stk, i + 1, [sg EXCEPT !.pol[p.id] = [st EXCEPT !.left = @ - 1]])
     [] p.k = "bh" ->
          IF sg.pol[p.id] >= p.max THEN Out(Pair("R0", Leaf("ErrFull")), FALSE, sg)
          ELSE LET in == Eval(stk, i + 1, [sg EXCEPT !.pol[p.id] = @ + 1]) IN
